@@ -768,3 +768,326 @@ Section Box.
         * rewrite <- (sb_col_max f (sb_coord f s) (py f) Hf Py Ny). now apply cell_centre_v_hi.
   Qed.
 End Box.
+
+(** ** 7. the shoebox room: general position and the closed form of visibility *)
+
+(** the room of [sparrowpy.testing.shoebox_room_stub] (translated to the corner (x0,y0,z0)),
+    patch size not larger than any side of the box *)
+Definition is_shoebox {T : Type} {O : Ops T} (rm : @room T) (x0 x1 y0 y1 z0 z1 : T) : Prop :=
+  rm_walls rm = sb_walls x0 x1 y0 y1 z0 z1 /\ rm_normals rm = sb_normals /\ rm_ups rm = sb_ups /\
+  (x0 < x1)%T /\ (y0 < y1)%T /\ (z0 < z1)%T /\ (0 < rm_patch_size rm)%T /\
+  (rm_patch_size rm <= x1 - x0)%T /\ (rm_patch_size rm <= y1 - y0)%T /\ (rm_patch_size rm <= z1 - z0)%T.
+
+(** the tolerances of the code are small against the patch size *)
+Definition sb_tolerances {T : Type} {O : Ops T} (rm : @room T) : Prop :=
+  (0 <= rm_eps rm)%T /\ (rm_eps rm < 1)%T /\ (0 < rm_eta rm)%T /\
+  (rm_eps rm + rm_eps rm < rm_patch_size rm)%T /\ (rm_eta rm + rm_eta rm < rm_patch_size rm)%T.
+
+Section ShoeboxRoomProofs.
+  Context {T : Type} {O : Ops T} {RL : RingLaws T} {OL : OrderLaws T} {FL : FieldLaws T}
+          {FlL : FloorLaws T} {SL : SqrtLaws T}.
+  Add Ring TRingShoebox6 : (@ring_th T O RL).
+  Local Notation vec := (@vec T).
+  Local Open Scope T_scope.
+
+  Variables (x0 x1 y0 y1 z0 z1 : T).
+  Variable rm : @room T.
+  Local Notation p := (rm_patch_size rm).
+  Local Notation eps := (rm_eps rm).
+  Local Notation eta := (rm_eta rm).
+  Local Notation np := (rm_np rm).
+  Local Notation centre k := (nthv (rm_centers rm) k).
+  Local Notation wsd := (wside x0 x1 y0 y1 z0 z1).
+  Local Notation inw := (in_wall x0 x1 y0 y1 z0 z1).
+  Local Notation cellr := (sb_cell x0 x1 y0 y1 z0 z1 p).
+  Local Notation cellc := (sb_centre x0 x1 y0 y1 z0 z1 p).
+  Local Notation nu := (sb_nu x0 x1 y0 y1 z0 z1 p).
+  Local Notation nv := (sb_nv x0 x1 y0 y1 z0 z1 p).
+  Local Notation wallof k := (wall (room_scene rm) k).
+
+  Hypothesis Hwalls : rm_walls rm = sb_walls x0 x1 y0 y1 z0 z1.
+  Hypothesis Hnormals : rm_normals rm = sb_normals.
+  Hypothesis Hx : x0 < x1.
+  Hypothesis Hy : y0 < y1.
+  Hypothesis Hz : z0 < z1.
+  Hypothesis Hp : 0 < p.
+  Hypothesis Hpx : p <= x1 - x0.
+  Hypothesis Hpy : p <= y1 - y0.
+  Hypothesis Hpz : p <= z1 - z0.
+
+  Lemma sb_wall_ok' (f : nat) (c : T) : (f < 3)%nat -> wall_ok (sb_quad x0 x1 y0 y1 z0 z1 f c) p f c.
+  Proof. exact (sb_wall_ok x0 x1 y0 y1 z0 z1 Hx Hy Hz p Hp Hpx Hpy Hpz f c). Qed.
+
+  Lemma sb_walls_length : length (rm_walls rm) = 6%nat.
+  Proof. rewrite Hwalls. reflexivity. Qed.
+
+  Lemma sb_axis_walls_by : axis_walls_by rm sb_f (sb_c x0 x1 y0 y1 z0 z1) sb_s.
+  Proof.
+    intros w Hw. rewrite sb_walls_length in Hw. rewrite Hwalls, Hnormals.
+    rewrite (sb_walls_nth x0 x1 y0 y1 z0 z1 w Hw), (sb_normals_nth w Hw). split; [|reflexivity].
+    apply sb_wall_ok', sb_f_lt.
+  Qed.
+
+  Lemma sb_axis_walls : axis_walls rm.
+  Proof. exact (axis_walls_by_axis_walls rm _ _ _ sb_axis_walls_by). Qed.
+
+  Variable rs : list (@rect T).
+  Hypothesis Hrs : rects_of (rm_patch_surfs rm) rs.
+  Hypothesis Hcells : forall k, (k < np)%nat ->
+    let w := wallof k in
+    is_cell (nth w (rm_walls rm) dquad) p (sb_f w) (sb_s w) (sb_c x0 x1 y0 y1 z0 z1 w) (nth k rs drect).
+
+  (** patch k is cell (i, j) of wall (f, s), its centroid the centre of that cell *)
+  Definition patch_on (k f : nat) (s : bool) : Prop :=
+    (f < 3)%nat /\ exists i j, (i < nu f s)%nat /\ (j < nv f s)%nat /\
+      nth k rs drect = cellr f s i j /\ centre k = cellc f s i j.
+
+  Lemma wallof_lt (k : nat) : (k < np)%nat -> (wallof k < 6)%nat.
+  Proof. intros Hk. rewrite <- sb_walls_length. now apply room_wall_lt. Qed.
+
+  Lemma patch_on_wall (k : nat) : (k < np)%nat -> patch_on k (sb_f (wallof k)) (sb_s (wallof k)).
+  Proof.
+    intros Hk. pose proof (wallof_lt k Hk) as Hw. pose proof (Hcells k Hk) as Hc. cbv zeta in Hc.
+    rewrite Hwalls, (sb_walls_nth x0 x1 y0 y1 z0 z1 _ Hw) in Hc.
+    destruct Hc as (i & j & Hi & Hj & E).
+    split; [apply sb_f_lt|]. exists i, j. split; [exact Hi|]. split; [exact Hj|]. split; [exact E|].
+    rewrite (room_center_is_rect_centroid rm rs Hrs k Hk), E. reflexivity.
+  Qed.
+
+  Variable m : T.
+  Hypothesis Heta : 0 < eta.
+  Hypothesis Hep : eps + eps < p.
+  Hypothesis Hetap : eta + eta < p.
+  Hypothesis Hmp : m + m < p.
+
+  Lemma patch_in_wall (k f : nat) (s : bool) : patch_on k f s -> inw f s (nth k rs drect).
+  Proof. intros (_ & i & j & _ & _ & -> & _). apply sb_cell_in_wall. Qed.
+
+  (** off the plane of every rectangle of another wall, on the inner side *)
+  Lemma patch_clear (k f : nat) (s : bool) (f' : nat) (s' : bool) (r : rect) :
+    patch_on k f s -> (f' < 3)%nat -> inw f' s' r -> f' <> f \/ s' <> s ->
+    clear_of eps eta r (centre k).
+  Proof.
+    intros (Hf & i & j & Hi & Hj & _ & Ec) Hf' Hr Hne. unfold clear_of.
+    rewrite (side_in_wall x0 x1 y0 y1 z0 z1 f' s' r _ Hf' Hr), Ec.
+    pose proof (sb_centre_deep x0 x1 y0 y1 z0 z1 Hx Hy Hz p Hp Hpx Hpy Hpz f s i j f' s' Hf Hf' Hi Hj Hne) as Hd.
+    split; [exact (half_gap _ _ _ Hep Hd)|exact (half_gap _ _ _ Hetap Hd)].
+  Qed.
+
+  (** in the plane of every cell of its own wall, off the edge bands *)
+  Lemma patch_on_same (k k' f : nat) (s : bool) :
+    patch_on k f s -> patch_on k' f s -> pt_on m (nth k' rs drect) (centre k).
+  Proof.
+    intros (Hf & i & j & _ & _ & _ & Ec) (_ & i' & j' & _ & _ & Er & _). rewrite Er, Ec.
+    unfold sb_cell, sb_centre. apply cell_centre_pt_on; [now apply sb_wall_ok'|exact Hmp].
+  Qed.
+
+  Lemma patch_in_own (k f : nat) (s : bool) :
+    (k < np)%nat -> patch_on k f s -> in_rect (nth k rs drect) (centre k).
+  Proof.
+    intros Hk (Hf & i & j & _ & _ & Er & _).
+    destruct (room_rect_in rm rs Hrs k Hk) as [_ Hwf].
+    rewrite (room_center_is_rect_centroid rm rs Hrs k Hk).
+    pose proof (sb_wall_ok' f (sb_coord x0 x1 y0 y1 z0 z1 f s) Hf) as Hok.
+    apply (rect_own_centroid 0 _ Hwf); rewrite Er; unfold sb_cell;
+      cbn [cell_rect r_ua r_ub r_va r_vb]; rewrite gline_step;
+      replace (0 + 0) with (0 : T) by ring.
+    - pose proof (wall_real_size_pos _ _ _ _ Hok (px f) (or_introl eq_refl)) as Hr.
+      rewrite (tabs_pos _ (tlt_le _ _ Hr)). exact Hr.
+    - pose proof (wall_real_size_pos _ _ _ _ Hok (py f) (or_intror eq_refl)) as Hr.
+      rewrite (tabs_pos _ (tlt_le _ _ Hr)). exact Hr.
+  Qed.
+
+  (** the position of centroid i relative to the rectangle of patch k *)
+  Lemma patch_position (i k fi : nat) (si : bool) (f : nat) (s : bool) :
+    patch_on i fi si -> patch_on k f s ->
+    ((fi = f /\ si = s) /\ pt_on m (nth k rs drect) (centre i)) \/
+    ((f <> fi \/ s <> si) /\ clear_of eps eta (nth k rs drect) (centre i)).
+  Proof.
+    intros Hi Hk. destruct (Nat.eq_dec f fi) as [Ef|Nf]; [destruct (Bool.bool_dec s si) as [Es|Ns]|].
+    - left. subst fi si. split; [split; reflexivity|]. now apply (patch_on_same i k f s).
+    - right. split; [now right|].
+      apply (patch_clear i fi si f s); [exact Hi|exact (proj1 Hk)|now apply patch_in_wall|now right].
+    - right. split; [now left|].
+      apply (patch_clear i fi si f s); [exact Hi|exact (proj1 Hk)|now apply patch_in_wall|now left].
+  Qed.
+
+  Lemma rs_nth (r : rect) : In r rs -> exists k, (k < np)%nat /\ nth k rs drect = r.
+  Proof.
+    intros Hin. destruct (In_nth rs r drect Hin) as (k & Hk & E).
+    exists k. split; [|exact E]. now rewrite <- (room_rects_length rm rs Hrs).
+  Qed.
+
+  (** GENERAL POSITION: every pair of centroids, every patch rectangle *)
+  Theorem sb_gen_pos (i j : nat) (r : rect) :
+    (i < np)%nat -> (j < np)%nat -> In r rs -> gen_pos eps eta m r (centre i) (centre j).
+  Proof.
+    intros Hi Hj Hr. destruct (rs_nth r Hr) as (k & Hk & <-).
+    pose proof (patch_on_wall i Hi) as Pi. pose proof (patch_on_wall j Hj) as Pj.
+    pose proof (patch_on_wall k Hk) as Pk.
+    destruct (patch_position i k _ _ _ _ Pi Pk) as [[_ Oi]|[_ Ci]];
+      destruct (patch_position j k _ _ _ _ Pj Pk) as [[_ Oj]|[_ Cj]].
+    - now apply gen_pos_on_on.
+    - now apply gen_pos_on_off.
+    - now apply gen_pos_off_on.
+    - now apply gen_pos_off_off.
+  Qed.
+
+  (** two patches of different walls: no patch rectangle blocks *)
+  Lemma sb_not_blocked (i j : nat) (r : rect) :
+    (i < np)%nat -> (j < np)%nat -> wallof i <> wallof j -> In r rs ->
+    ~ blocked r (centre i) (centre j).
+  Proof.
+    intros Hi Hj Hne Hr. destruct (rs_nth r Hr) as (k & Hk & <-).
+    pose proof (patch_on_wall i Hi) as Pi. pose proof (patch_on_wall j Hj) as Pj.
+    pose proof (patch_on_wall k Hk) as Pk.
+    destruct (patch_position i k _ _ _ _ Pi Pk) as [[[Efi Esi] Oi]|[_ Ci]];
+      destruct (patch_position j k _ _ _ _ Pj Pk) as [[[Efj Esj] Oj]|[_ Cj]].
+    - exfalso. apply Hne. apply sb_wall_inj; try (now apply wallof_lt); congruence.
+    - exact (proj1 (not_blocked_on_inner _ _ _ (proj1 Oi) (clear_pos eps eta Heta _ _ Cj))).
+    - exact (proj2 (not_blocked_on_inner _ _ _ (proj1 Oj) (clear_pos eps eta Heta _ _ Ci))).
+    - exact (not_blocked_inner _ _ _ (clear_pos eps eta Heta _ _ Ci) (clear_pos eps eta Heta _ _ Cj)).
+  Qed.
+
+  (** two patches of the same wall: the rectangle of the first blocks (coplanar) *)
+  Lemma sb_same_wall_blocked (i j : nat) :
+    (i < np)%nat -> (j < np)%nat -> wallof i = wallof j ->
+    blocked (nth i rs drect) (centre i) (centre j).
+  Proof.
+    intros Hi Hj E.
+    pose proof (patch_on_wall i Hi) as Pi. pose proof (patch_on_wall j Hj) as Pj. rewrite <- E in Pj.
+    apply blocked_coplanar.
+    - exact (proj1 (patch_on_same i i _ _ Pi Pi)).
+    - exact (proj1 (patch_on_same j i _ _ Pj Pi)).
+    - left. exact (patch_in_own i _ _ Hi Pi).
+  Qed.
+
+  Hypothesis He : 0 <= eps.
+  Hypothesis He1 : eps < 1.
+  Hypothesis Hm : eta <= m + m.
+
+  (** CLOSED FORM: two patches exchange energy iff they lie on different walls *)
+  Theorem sb_visibility (i j : nat) :
+    (i < j)%nat -> (j < np)%nat ->
+    (vis_sym (room_scene rm) i j = true <-> wallof i <> wallof j).
+  Proof.
+    intros Hij Hj. assert (Hi : (i < np)%nat) by lia.
+    rewrite (room_visibility_geometric rm rs m He He1 Heta Hm Hrs i j Hij Hj
+               (fun r Hr => sb_gen_pos i j r Hi Hj Hr)).
+    split.
+    - intros H E. apply (H (nth i rs drect)).
+      + apply nth_In. now rewrite (room_rects_length rm rs Hrs).
+      + now apply sb_same_wall_blocked.
+    - intros Hne r Hr. now apply sb_not_blocked.
+  Qed.
+
+  (** *** a point source / receiver strictly inside the box sees every patch
+      ([room_point_vis]: the blockers are the six WALL rectangles) *)
+  Definition wall_rect (f : nat) (s : bool) : @rect T :=
+    mkrect (ax_of f) s (sb_coord x0 x1 y0 y1 z0 z1 f s)
+           (sb_lo x0 y0 z0 (px f)) (sb_hi x1 y1 z1 (px f)) (sb_lo x0 y0 z0 (py f)) (sb_hi x1 y1 z1 (py f))
+           (Nat.eqb f 0).
+
+  Lemma wall_rect_surface (f : nat) (s : bool) : (f < 3)%nat ->
+    (verts (sb_quad x0 x1 y0 y1 z0 z1 f (sb_coord x0 x1 y0 y1 z0 z1 f s)), axis_normal (ax_of f) s)
+    = rect_surface (wall_rect f s).
+  Proof. intros Hf. destruct f as [|[|[|f]]]; try lia; reflexivity. Qed.
+
+  Lemma sb_wall_surfs :
+    rm_wall_surfs rm = map (fun w => rect_surface (wall_rect (sb_f w) (sb_s w))) (seq 0 6).
+  Proof. unfold rm_wall_surfs. rewrite Hwalls, Hnormals. reflexivity. Qed.
+
+  Lemma wall_rect_wf (f : nat) (s : bool) : rect_wf (wall_rect f s).
+  Proof.
+    split; cbn [wall_rect r_ua r_ub r_va r_vb]; apply tlt_neq; now apply sb_lo_lt_hi.
+  Qed.
+
+  Lemma wall_rect_in_wall (f : nat) (s : bool) : inw f s (wall_rect f s).
+  Proof. split; [reflexivity|split; reflexivity]. Qed.
+
+  Lemma pos_of_double (w : T) : p <= w + w -> 0 < w.
+  Proof.
+    intros H. apply half_lt. replace (0 + 0) with (0 : T) by ring. exact (tlt_le_trans _ _ _ Hp H).
+  Qed.
+
+  Lemma tsub_pos_lt (a b : T) : 0 < b - a -> a < b.
+  Proof. intros H. now apply (proj2 (tlt_sub _ _)). Qed.
+
+  (** the centroid of a patch lies in its WALL rectangle, off the wall's edge bands *)
+  Lemma patch_in_wall_rect (k f : nat) (s : bool) :
+    patch_on k f s -> pt_on m (wall_rect f s) (centre k) /\ in_rect (wall_rect f s) (centre k).
+  Proof.
+    intros (Hf & i & j & Hi & Hj & _ & Ec). rewrite Ec. unfold sb_centre.
+    set (c := sb_coord x0 x1 y0 y1 z0 z1 f s).
+    pose proof (sb_wall_ok' f c Hf) as Hok.
+    destruct (plane_axes_facts f Hf) as (Px & Py & Nx & Ny & _).
+    pose proof (sb_col_min x0 x1 y0 y1 z0 z1 Hx Hy Hz f c (px f) Hf Px Nx) as Mu.
+    pose proof (sb_col_max x0 x1 y0 y1 z0 z1 Hx Hy Hz f c (px f) Hf Px Nx) as Xu.
+    pose proof (sb_col_min x0 x1 y0 y1 z0 z1 Hx Hy Hz f c (py f) Hf Py Ny) as Mv.
+    pose proof (sb_col_max x0 x1 y0 y1 z0 z1 Hx Hy Hz f c (py f) Hf Py Ny) as Xv.
+    pose proof (cell_centre_off_u _ _ _ _ s Hok m i j 0 Hmp) as Ou0.
+    pose proof (cell_centre_off_u _ _ _ _ s Hok m i j (patch_num (sb_quad x0 x1 y0 y1 z0 z1 f c) p (px f)) Hmp) as Ou1.
+    pose proof (cell_centre_off_v _ _ _ _ s Hok m i j 0 Hmp) as Ov0.
+    pose proof (cell_centre_off_v _ _ _ _ s Hok m i j (patch_num (sb_quad x0 x1 y0 y1 z0 z1 f c) p (py f)) Hmp) as Ov1.
+    rewrite (wall_gline_first _ p (px f)), Mu in Ou0.
+    rewrite (wall_gline_last _ _ _ _ Hok (px f) (or_introl eq_refl)), Xu in Ou1.
+    rewrite (wall_gline_first _ p (py f)), Mv in Ov0.
+    rewrite (wall_gline_last _ _ _ _ Hok (py f) (or_intror eq_refl)), Xv in Ov1.
+    pose proof (cell_centre_u_lo _ _ _ _ s Hok i j) as Lu. rewrite Mu in Lu.
+    pose proof (cell_centre_u_hi _ _ _ _ s Hok i j Hi) as Hu. rewrite Xu in Hu.
+    pose proof (cell_centre_v_lo _ _ _ _ s Hok i j) as Lv. rewrite Mv in Lv.
+    pose proof (cell_centre_v_hi _ _ _ _ s Hok i j Hj) as Hv. rewrite Xv in Hv.
+    split; [split|].
+    - apply cell_centre_on; reflexivity.
+    - unfold off_bands. cbn [wall_rect r_axis r_ua r_ub r_va r_vb].
+      split; [exact Ou0|]. split; [exact Ou1|]. split; [exact Ov0|exact Ov1].
+    - unfold in_rect. cbn [wall_rect r_axis r_ua r_ub r_va r_vb]. split; left; split; apply tsub_pos_lt.
+      + exact (pos_of_double _ Lu).
+      + exact (pos_of_double _ Hu).
+      + exact (pos_of_double _ Lv).
+      + exact (pos_of_double _ Hv).
+  Qed.
+
+  Variable pos : vec.
+  Hypothesis Hpos : forall f s, (f < 3)%nat -> eps < wsd f s pos /\ eta < wsd f s pos.
+
+  Lemma pos_clear (f : nat) (s : bool) (r : rect) : (f < 3)%nat -> inw f s r -> clear_of eps eta r pos.
+  Proof.
+    intros Hf Hr. unfold clear_of. rewrite (side_in_wall x0 x1 y0 y1 z0 z1 f s r _ Hf Hr). now apply Hpos.
+  Qed.
+
+  Lemma sb_point_wall_visible (k f : nat) (s : bool) (f' : nat) (s' : bool) :
+    patch_on k f s -> (f' < 3)%nat ->
+    basic_visibility eps eta pos (centre k) (rect_surface (wall_rect f' s')) = true.
+  Proof.
+    intros Pk Hf'.
+    pose proof (pos_clear f' s' _ Hf' (wall_rect_in_wall f' s')) as Cp.
+    assert (H : gen_pos eps eta m (wall_rect f' s') pos (centre k) /\
+                ~ blocked (wall_rect f' s') pos (centre k)).
+    { destruct (Nat.eq_dec f' f) as [Ef|Nf]; [destruct (Bool.bool_dec s' s) as [Es|Ns]|].
+      - subst f' s'. destruct (patch_in_wall_rect k f s Pk) as [On _]. split.
+        + now apply gen_pos_off_on.
+        + exact (proj2 (not_blocked_on_inner _ _ _ (proj1 On) (clear_pos eps eta Heta _ _ Cp))).
+      - assert (Ck : clear_of eps eta (wall_rect f' s') (centre k))
+          by (apply (patch_clear k f s f' s'); [exact Pk|exact Hf'|apply wall_rect_in_wall|now right]).
+        split; [now apply gen_pos_off_off|].
+        exact (not_blocked_inner _ _ _ (clear_pos eps eta Heta _ _ Cp) (clear_pos eps eta Heta _ _ Ck)).
+      - assert (Ck : clear_of eps eta (wall_rect f' s') (centre k))
+          by (apply (patch_clear k f s f' s'); [exact Pk|exact Hf'|apply wall_rect_in_wall|now left]).
+        split; [now apply gen_pos_off_off|].
+        exact (not_blocked_inner _ _ _ (clear_pos eps eta Heta _ _ Cp) (clear_pos eps eta Heta _ _ Ck)). }
+    destruct H as [Hg Hb].
+    destruct (basic_visibility eps eta pos (centre k) (rect_surface (wall_rect f' s'))) eqn:E; [reflexivity|].
+    exfalso. apply Hb.
+    exact (proj1 (blocked_iff_rect eps eta m He He1 Heta Hm _ _ _ (wall_rect_wf f' s') Hg) E).
+  Qed.
+
+  Theorem sb_point_visibility (k : nat) : (k < np)%nat -> nthb (room_point_vis rm pos) k = true.
+  Proof.
+    intros Hk. unfold room_point_vis.
+    rewrite check_point2patch_nth by (unfold rm_centers; rewrite map_length; exact Hk).
+    unfold visible_all. apply forallb_forall. intros s Hs.
+    rewrite sb_wall_surfs in Hs. apply in_map_iff in Hs. destruct Hs as (w & <- & Hw).
+    apply (sb_point_wall_visible k _ _ (sb_f w) (sb_s w) (patch_on_wall k Hk)). apply sb_f_lt.
+  Qed.
+End ShoeboxRoomProofs.
